@@ -8,7 +8,7 @@ def run(rep, tier, seed):
     # P: the splice/shift kernel every structured edit is built on (shared with C11)
     verify_all(rep, k_offset.specs('C01') + k_offset.specs_text('C01') + k_offset.specs_offset_lns('C01'))
     # B: runtime postcondition on the public edit API, ast.parse + own comparator as oracle
-    ops = ['self', 'remove', 'donor', 'slice', 'seq', 'accessors', 'views', 'optional']
+    ops = ['self', 'remove', 'donor', 'slice', 'seq', 'accessors', 'views', 'optional', 'move']
     sec = native.run('b_edit', 'main', {'props': ['C01'], 'tier': tier, 'seed': seed, 'ops': ops, 'norm': True})
     sec['native_entry'] = ('b_edit', 'replay')
     rep.bounded(sec)
